@@ -401,6 +401,16 @@ class Contract:
         finals = {}
         for pname, fields in getattr(self, "modifies_fields", {}).items():
             old = env[pname]
+            if isinstance(old, OpaqueV) and old.kind.name == "XNode":
+                from . import dom_model as _dm
+
+                r = z3.FreshConst(_dm.XNODE.sort(), f"{pname}_after")
+                same = [fn_() (r) == fn_()(old.t) for nm, (fn_, _k) in _dm.FIELDS.items()
+                        if nm not in fields and not (nm == "childNodes" and "kids" in fields) and nm != "childNodes"]
+                normal = normal.assume(And(*same))
+                finals[pname] = OpaqueV(_dm.XNODE, r)
+                env2["final_" + pname] = finals[pname]
+                continue
             if not isinstance(old, ObjV):
                 raise Unsupported(f"{self.fid}: modifies_fields on non-record {pname}")
             newv = old
@@ -598,7 +608,15 @@ class Registry:
         return self.hooks.get(("mutator", cls, meth))
 
     def method_for(self, cls, meth):
-        return self.methods.get((cls, meth))
+        m = self.methods.get((cls, meth))
+        if m is None:
+            real = self.hooks.get(("class", cls))
+            if isinstance(real, type):   # a record kind declared for a real class: follow its MRO
+                for base in real.__mro__[1:]:
+                    m = self.methods.get((base.__name__, meth))
+                    if m is not None:
+                        break
+        return m
 
     def field_function(self, kind, attr):
         return self.hooks.get(("field", kind.name, attr))
@@ -927,7 +945,27 @@ def _cf_has_attr(eng, st, pos, kw):
     return [(st, BoolV(f(e.t, name.t)))]
 
 
+def _cf_ctx_of(eng, st, pos, kw):
+    """ctx_of(x): the identity of an object (survey, element record or element reference) as a value of the opaque sort
+    Ctx — lets one specification function (Subst ...) take contexts of different record kinds."""
+    from .kinds import _mangle
+
+    v = pos[0]
+    ck = KOpaque("Ctx")
+    f = z3.Function("ctx_" + _mangle(v.kind), v.kind.sort(), ck.sort())
+    return [(st, OpaqueV(ck, f(box(v, v.kind))))]
+
+
+def _cf_same(eng, st, pos, kw):
+    """same(a, b): identical values including dict key order (term equality), stronger than Python's == on dicts."""
+    a, b = pos
+    k = a.kind
+    return [(st, BoolV(box(a, k) == box(b, k)))]
+
+
 CONTRACT_FUNCS = {
+    "same": FuncV(_cf_same, "same"),
+    "ctx_of": FuncV(_cf_ctx_of, "ctx_of"),
     "has_attr": FuncV(_cf_has_attr, "has_attr"),
     "is_a": FuncV(_cf_is_a, "is_a"),
     "ParsedKids": FuncV(_cf_parsed_kids, "ParsedKids"),
@@ -1189,6 +1227,12 @@ class Verifier(Engine):
                 self.oblige("raises", f"must-raise-{cls}", st, simp(z3.Not(w)), ex.lineno)
         for pname, fields in getattr(c, "modifies_fields", {}).items():
             got, was = cur.get(pname), env[pname]
+            if isinstance(got, OpaqueV) and isinstance(was, OpaqueV) and got.kind.name == "XNode":
+                from . import dom_model as _dm
+
+                for nm, (fn_, _k) in _dm.FIELDS.items():
+                    if nm not in fields and nm != "childNodes":
+                        self.oblige("frame", f"unchanged-{pname}.{nm}", st, fn_()(got.t) == fn_()(was.t), ex.lineno)
             if isinstance(got, ObjV) and isinstance(was, ObjV):
                 for fn_ in was.fields:
                     if fn_ not in fields:
